@@ -12,6 +12,7 @@ import (
 	"sort"
 	"strings"
 	"sync"
+	"sync/atomic"
 	"time"
 )
 
@@ -392,16 +393,19 @@ var solvers = []solverSpec{
 }
 
 var solverSem = make(chan struct{}, 30)
+var queryCounter int64
 var workDir = "/verif/work"
 
 // runQuery races the solvers on the query text.  wantModel: on sat, re-run the
 // answering solver with get-model.
 func runQuery(name, text string, timeoutS int, seed int, need int) solverResult {
 	os.MkdirAll(workDir, 0o755)
-	file := fmt.Sprintf("%s/%s.smt2", workDir, sanitize(name))
-	if len(file) > 200 {
-		file = fmt.Sprintf("%s/%s_%x.smt2", workDir, sanitize(name)[:120], hash32(name))
+	qn := atomic.AddInt64(&queryCounter, 1)
+	base := sanitize(name)
+	if len(base) > 120 {
+		base = base[:120]
 	}
+	file := fmt.Sprintf("%s/q%d_%d_%s.smt2", workDir, os.Getpid(), qn, base)
 	os.WriteFile(file, []byte(text), 0o644)
 	defer os.Remove(file)
 	start := time.Now()
